@@ -629,3 +629,13 @@ def run(prog, rep, tier, snap):
     rep.rule("R08.8", "the text <-> instant/duration conversions carry no state from one call to the next (shared with C08)", 1)
     rep.call(state.no_carried_state, prog, rep, "R08.8", "time")
 READY = True
+
+# texts brought up to date with the rules above (they supersede the first versions at the top of the module)
+LEVEL_TEXT = ("Static verdict on necessary clauses of C18 for durations: 64-bit accumulation; the reader, walked value-fixed over all 726 "
+              "grammatical spellings [+|-]P[nW][nD][T[nH][nM][nS]] with counts absent/0/12, reads each as the duration it spells (sign, "
+              "multipliers, T, explicit zero counts); what the printer writes for every 0/12 combination of days, hours, minutes and seconds "
+              "reads back as the same milliseconds; constant masks on an instant's date part clear tag bits only; the instant parser's default "
+              "window covers the printers' longest output. The digit-level parsing and printing of instants is otherwise NOT decided; the "
+              "sub-second remainder the printer drops is a known finding.")
+TECHNIQUE = ("static analysis: typed-width inspection, value-fixed walks of the extracted reader and printer CFGs over all grammatical spellings "
+             "(input bytes as constants, helpers spliced in), bit-layout agreement of constant masks, path-maximised output length")
